@@ -81,6 +81,12 @@ fn check_script(case: &Script, probe: &mut Probe) -> Result<(), String> {
     if s.resources.iter().any(|r| r.task_us > 0) {
         probe.label("has_task_bound_program");
     }
+    if s.resources.iter().any(|r| r.fault_restart && r.fault_at.is_some()) {
+        probe.label("fault_policy=restart");
+    }
+    if s.resources.iter().any(|r| r.watchdog_restart_ns.is_some()) {
+        probe.label("watchdog=restart");
+    }
     let mut nontrivial = false;
     let mut best = None;
     for rep in 0..s.reps {
@@ -137,6 +143,12 @@ fn check_script(case: &Script, probe: &mut Probe) -> Result<(), String> {
                 }
                 if st.chased {
                     probe.label("rep:wake_chased_by_subinterval_advance");
+                }
+                if st.restart_signals > 0 {
+                    probe.label("rep:restart_signal_raised");
+                }
+                if st.fault_restarts > 0 {
+                    probe.label("rep:fault_restarted(FaultPolicy::Restart)");
                 }
                 if st.log_truncated {
                     probe.label("rep:cycle_log_truncated");
@@ -249,7 +261,9 @@ fn run(ctx: &mut RunCtx) {
 
     // Single-threaded, deterministic: the same programs ticked with tick_with_shared.
     // (a) generated programs and orders
-    let tick_strat = (tape_strategy(60), proptest::collection::vec(0u8..4, 1..13))
+    // order symbols: 0..3 = tick of that runner, 0x80|i = warm, 0xC0|i = cold restart of its runtime
+    let symbol = prop_oneof![5 => 0u8..4, 1 => (0u8..4).prop_map(|i| 0x80 | i), 1 => (0u8..4).prop_map(|i| 0xC0 | i)];
+    let tick_strat = (tape_strategy(60), proptest::collection::vec(symbol, 1..13))
         .prop_map(|(t, order)| TickCase { script: script_from_tape(&t, 1), order });
     ctx.search("ticks", tick_strat, ctx.tier.pick(240, 4000), check_ticks);
     // (b) every order of 6 ticks of 2 and of 3 runners (the invariants are evaluated after each
